@@ -168,13 +168,6 @@ no second request on the stream) -/
 def noLaterBlocks (f : Frame) (after : List Frame) : Bool :=
   ((after.drop (contCount f after)).filter (fun g => g.sid == f.sid)).all (fun g => !isHeaders g && !isContinuation g)
 
-/-- frames before the message's HEADERS frame -/
-def beforePrimary (frames : List Frame) : List Frame := frames.takeWhile (fun g => !isMsgHeaders g)
-
-/-- no CONTINUATION frame on the message's stream precedes its HEADERS frame -/
-def noStrayContinuation (f : Frame) (frames : List Frame) : Bool :=
-  (beforePrimary frames).all (fun g => !(isContinuation g && g.sid == f.sid))
-
 /-! ### projections of the code's output records onto what the statement lists -/
 
 def reqCore (r : Request) : ReqCore :=
@@ -196,27 +189,11 @@ end Huginn.Spec.H2Message
 namespace Huginn.KF.C16
 open Huginn.H2 Huginn.Spec.H2 Huginn.Spec.H2Message
 
-/-- PADDED or PRIORITY on the message's HEADERS frame: the raw payload (pad length, priority fields,
-padding) is handed to HPACK -/
-def headersPaddedOrPriority (frames : List Frame) : Bool :=
-  match firstWithRest isMsgHeaders frames with
-  | some (f, _) => padded f || hasPriority f
-  | none => false
-
-/-- the block continues in CONTINUATION frames: each frame's fragment is decoded on its own -/
+/-- the message's header block has started but its END_HEADERS has not arrived: the code decodes
+the fragments received so far (and reports a message, or an error), the specification reports nothing yet -/
 def headersContinued (frames : List Frame) : Bool :=
-  match firstWithRest isMsgHeaders frames with
-  | some (f, _) => !endHeaders f
-  | none => false
-
-/-- a reported header's name is, ignoring case, in the optional / skip-value lists: the code compares
-the lower-cased name with the Title-Case list entries, so the rule never applies -/
-def listCase (optionalList skipList : List Bytes) (hs : List Hdr) : Bool :=
-  hs.any (fun h => inListIgnoreCase optionalList h.name || inListIgnoreCase skipList h.name)
-
-/-- a regular field has an empty value: reported as "no value" (request cookie fields excepted: an
-empty cookie field carries no cookie either way) -/
-def emptyValue (isReq : Bool) (fields : List Field) : Bool :=
-  (regular (textFields fields)).any (fun h => h.value == some [] && !(isReq && isCookie h))
+  match primaryBlock frames with
+  | some (_, _, .incomplete) => true
+  | _ => false
 
 end Huginn.KF.C16
